@@ -316,6 +316,11 @@ func (ev *Evaluator) applyStrict(f FunSig, ret *m.Type, a []*m.Val) (*m.Val, *Fa
 	case "SUB_NUM_NUM":
 		return num(n(0) - n(1))
 	case "SUB_TIME_TIME":
+		// what a difference of more than about 292 years is (Go's Duration saturates there) is
+		// not specified anywhere: such programs are compared between back ends only
+		if du := a[0].Tm.Unix - a[1].Tm.Unix; du > 9223372035 || du < -9223372035 {
+			ev.flag("time-difference-beyond-duration-range")
+		}
 		return num(a[0].Tm.Go().Sub(a[1].Tm.Go()).Seconds())
 	case "MUL_NUM_NUM":
 		return num(n(0) * n(1))
